@@ -178,7 +178,15 @@ func (g *Gen) Func(depth int) string {
 	}
 	if f.n == "re-match" && n == 2 && g.T.Coin() {
 		// patterns, including ones Go's regexp package rejects (XSD escapes, stray metacharacters)
-		args[1] = g.pick([]string{"'[a-z]+'", "'^eth[0-9]$'", "'['", "'('", "'*a'", "'\\p{IsBasicLatin}'", "'a{2,1}'", "'\\i\\c*'", "'.*'"})
+		// patterns, valid ones and everything around them: what Go's regexp rejects, XSD escapes and blocks,
+		// and every such pattern CUT at a drawn place (an escape or a block or a class that never ends)
+		pats := []string{"[a-z]+", "^eth[0-9]$", "[", "(", "*a", "\\p{IsBasicLatin}", "a{2,1}", "\\i\\c*", ".*",
+			"\\p{IsBasicLatin}+\\P{IsGreek}", "\\pL\\PL", "[\\p{Lu}-[A-F]]", "a{1,1000}{1,1000}", "(a|b)*c\\d{1,3}\\.\\d{1,3}", "[\\i-[:]][\\c-[:]]*", "\\", "a\\", "(?i)x", "[[:alpha:]]", "\\1", "é+\\x{10FFFF}", ""}
+		pat := pats[g.T.Draw(len(pats))]
+		if len(pat) > 1 && g.T.Rare(3) {
+			pat = pat[:1+g.T.Draw(len(pat)-1)]
+		}
+		args[1] = "'" + pat + "'"
 	}
 	sp := ""
 	if g.T.Rare(8) {
